@@ -20,6 +20,8 @@ import (
 	"os"
 	"testing"
 
+	"github.com/libsv/go-bt/v2/bscript/interpreter/scriptflag"
+
 	"verif/internal/gen"
 	"verif/internal/mon"
 	"verif/internal/prng"
@@ -326,5 +328,104 @@ func FuzzC16Tx(f *testing.F) {
 			t.Skip()
 		}
 		fuzzJudge(t, "C16", "tx", &c16Tx{Shape: *s, Stage: "coverage-guided"})
+	})
+}
+
+// ---------------------------------------------------------------- C06
+
+// FuzzC06Spec: the engine's bytes choose a signature-program SPEC (kind, m-of-n,
+// signature classes and hash types per slot, key encodings, separator position
+// and kind, dummy, flags, tails, heads, P2SH wrapping); transaction, keys and
+// signatures are then made as in the deterministic phases (c06Make) from a PRNG
+// seeded by the same bytes, and the case is judged by the C06 judge.
+func FuzzC06Spec(f *testing.F) {
+	r := prng.New(1, "fuzz-seeds-c06", 0)
+	for i := 0; i < 32; i++ {
+		f.Add(r.Bytes(24))
+	}
+	classes := []string{"correct", "correct", "wrong-key", "wrong-digest", "empty", "high-s", "weird-hashtype", "non-der", "forkid-bit-mismatch", "ber-padded"}
+	keyEncs := []string{"c", "c", "u", "h", "short", "badprefix", "offcurve", "empty", "c-with-04", "u-with-02", "long"}
+	f.Fuzz(func(t *testing.T, blob []byte) {
+		if len(blob) > 64 {
+			t.Skip()
+		}
+		i := 0
+		next := func() int {
+			if i < len(blob) {
+				i++
+				return int(blob[i-1])
+			}
+			return 0
+		}
+		sp := &c06Spec{SepPos: -1, SepKind: "plain"}
+		sp.Kind = []string{"p2pk", "p2pkh", "multisig", "two-checks", "bare-checksig"}[next()%5]
+		sp.Flags = sigFlagSubset(next() % (1 << len(sigFlagBits)))
+		o := next()
+		sp.Verify, sp.Not, sp.ZeroSats = o&1 != 0, o&2 != 0, o&4 != 0
+		sp.P2SH = o&8 != 0
+		if o&16 != 0 {
+			sp.SepPos, sp.SepKind = next()%7, []string{"plain", "unexecuted-if", "executed-if"}[next()%3]
+		}
+		fork := scriptflag.Flag(sp.Flags)&scriptflag.EnableSighashForkID != 0
+		nslots := 1
+		switch sp.Kind {
+		case "multisig":
+			sp.N = next() % 4
+			sp.M = next() % (sp.N + 1)
+			nslots = sp.M
+			if o&32 != 0 {
+				sp.Dummy = [][]byte{{0x01}, {0x00}, {0x80}, {0x00, 0x00}}[next()%4]
+			}
+		case "two-checks":
+			nslots = 2
+		}
+		for k := 0; k < nslots; k++ {
+			cl := classes[next()%len(classes)]
+			ht := byte(1 + next()%3)
+			h := next()
+			if h&1 != 0 {
+				ht |= 0x80
+			}
+			if fork {
+				ht |= 0x40
+			}
+			switch cl {
+			case "weird-hashtype":
+				ht = []byte{0x00, 0x04, 0x05, 0x1f, 0x20, 0x84, 0x21, 0x30, 0x11}[h%9]
+				if fork {
+					ht |= 0x40
+				}
+			case "forkid-bit-mismatch":
+				ht ^= 0x40
+			}
+			key := k
+			if sp.Kind == "multisig" && sp.N > 0 {
+				key = next() % (sp.N + 1)
+			}
+			sp.Slots = append(sp.Slots, c06Slot{Key: key, Class: cl, HashType: ht})
+		}
+		nkeys := 2
+		if sp.Kind == "multisig" {
+			nkeys = sp.N
+		}
+		for k := 0; k < nkeys; k++ {
+			sp.KeyEnc = append(sp.KeyEnc, keyEncs[next()%len(keyEncs)])
+		}
+		tl := next()
+		if !sp.P2SH {
+			sp.UnlockTail = [][]byte{nil, nil, {0xab}, {0xab, 0x6a}, {0x61, 0xab, 0x6a}, {0x6a}}[tl%6]
+			sp.LockTail = [][]byte{nil, nil, {0x6a}, {0x6a, 0xab}, {0x6a, 0x01, 0xab, 0xab}, {0x6a, 0xab, 0x01, 0x02}}[(tl/6)%6]
+		} else {
+			sp.Flags |= uint32(scriptflag.Bip16)
+			sp.Flags &^= uint32(scriptflag.UTXOAfterGenesis)
+		}
+		if !c06Legal(sp) {
+			t.Skip()
+		}
+		seed := prng.HashBytes(blob)
+		cs := c06Make(prng.New(seed, "C06-fuzz", 0), sp)
+		cs.Class = "coverage-guided"
+		cs.Desc = fmt.Sprintf("%s m=%d n=%d verify=%v not=%v sep=%d/%s slots=%+v keyenc=%v p2sh=%v", sp.Kind, sp.M, sp.N, sp.Verify, sp.Not, sp.SepPos, sp.SepKind, sp.Slots, sp.KeyEnc, sp.P2SH)
+		fuzzJudge(t, "C06", "sigcase", cs)
 	})
 }
